@@ -106,16 +106,16 @@ pub fn check(rep: &Report) {
     let t = crate::thorough(&rep.tier);
     // cells referring to strings past the 8- and 16-bit index boundaries of large tables (shared with C02)
     crate::props::c02::large_sst(rep);
-    rep.rule("string tables = every single string of <= 3 characters plus every 4-character string without the astral character (thorough: all of <= 4 plus every 5-character string without it) over {a, e-acute (8-bit compressible), euro (needs 16-bit), U+1F600 (surrogate pair), U+0091 (a C1 code point: compressed bytes are Latin-1, not windows-1252)} x 6 rich/ExtRst variants (incl. the fExtSt flag with a zero-length block); every pair of strings of <= 2 chars x rich variants on the first; triples over a 4-text set x rich variants on the middle one; plus (thorough) a 32767-character and a 9000-character string forcing cuts at the 8224-byte limit; encoding = every subset of legal cut points (between strings, between characters but never inside a surrogate pair, between formatting runs, anywhere in ExtRst) x 8/16-bit packing of every compressible segment; LABEL, FORMULA+STRING and sheet name in both packings; full product when <= limit else <= d deviations; non-trivial = any non-default choice; distinct by file bytes");
+    rep.rule("string tables = every single string of <= 3 characters plus every 4-character string without the astral character (thorough: every 4-character string) over {a, e-acute (8-bit compressible), euro (needs 16-bit), U+1F600 (surrogate pair), U+0091 (a C1 code point: compressed bytes are Latin-1, not windows-1252)} x 6 rich/ExtRst variants (incl. the fExtSt flag with a zero-length block); every pair of strings of <= 2 chars x rich variants on the first; triples over a 4-text set x rich variants on the middle one; plus (thorough) a 32767-character and a 9000-character string forcing cuts at the 8224-byte limit; encoding = every subset of legal cut points (between strings, between characters but never inside a surrogate pair, between formatting runs, anywhere in ExtRst) x 8/16-bit packing of every compressible segment; LABEL, FORMULA+STRING and sheet name in both packings; full product when <= limit else <= d deviations; non-trivial = any non-default choice; distinct by file bytes");
     rep.assume("cuts inside the 3-byte string header, inside cRun/cbExtRst fields or inside a surrogate pair are not generated (not legal / conservative reading of 'between characters')");
     let mut tables: Vec<Vec<SstString>> = vec![];
-    for tx in texts(if t { 4 } else { 3 }).into_iter().chain(texts(if t { 5 } else { 4 }).into_iter().filter(|x| x.chars().count() == if t { 5 } else { 4 } && !x.contains('\u{1F600}')).collect::<Vec<_>>()) { for (runs, ext) in rich_variants() { tables.push(vec![SstString { text: tx.clone(), runs, ext }]); } }
+    for tx in texts(3).into_iter().chain(texts(4).into_iter().filter(|x| x.chars().count() == 4 && (t || !x.contains('\u{1F600}'))).collect::<Vec<_>>()) { for (runs, ext) in rich_variants() { tables.push(vec![SstString { text: tx.clone(), runs, ext }]); } }
     let small = texts(2);
     for a in &small { for b in &small { for (runs, ext) in rich_variants() { tables.push(vec![SstString { text: a.clone(), runs, ext }, SstString::plain(b)]); } } }
     let tiny = ["", "a", "\u{e9}\u{20ac}", "\u{1F600}a", "\u{91}b"];
     for a in tiny { for b in tiny { for c in tiny { for (runs, ext) in rich_variants() { tables.push(vec![SstString::plain(a), SstString { text: b.into(), runs, ext }, SstString::plain(c)]); } } } }
     let stats = Mutex::new(Stats::default());
-    let limit = if t { 8_000.0 } else { 400.0 };
+    let limit = if t { 3_000.0 } else { 400.0 };
     let dev = if t { 3 } else { 2 };
     let full = std::sync::atomic::AtomicU64::new(0);
     tables.par_iter().for_each(|tb| {
